@@ -9,7 +9,6 @@ Variable value : Type.
 Variable is_none : value -> bool.
 Variable sg : signature value.
 Variable env : wenv.
-Variable veq : value -> value -> bool.
 Hypothesis NV : s_varpos sg = false.      (* functions without *args *)
 
 Notation param := (param value).
@@ -27,7 +26,7 @@ Notation uitems := (uitems value is_none sg).
 Notation wc_ref := (wc_ref value is_none sg env).
 Notation tail_m := (tail_m value is_none sg env).
 Notation arrival := (arrival value sg).
-Notation vrun := (run value is_none veq rcfg rr sg env).
+Notation vrun := (run value is_none rcfg rr sg env).
 Notation observe := (observe value is_none sg).
 Notation norm := (norm value is_none).
 Notation final_equiv := (final_equiv value).
@@ -523,7 +522,7 @@ Theorem body_binding : forall dc is_async c j b,
   exists r, snd (wc_ref dc c) = WOk r /\ NoDup (keys r) /\
             forall n, dget n b = bound_val value sg (norm (d_mode dc) r) n.
 Proof.
-  intros dc is_async c j b G H. destruct (run_body_inv _ _ _ _ _ NV _ _ _ _ _ H) as [r [W O]].
+  intros dc is_async c j b G H. destruct (run_body_inv _ _ _ _ _ NV _ _ _ _ H) as [r [W O]].
   exists r. assert (ND := result_nodup _ _ _ _ _ _ _ W). repeat split; try assumption.
   rewrite observe_normal in O by eauto using result_self_ok.
   destruct (pyb value sg (norm (d_mode dc) r)) as [b'|x] eqn:P; [|discriminate].
@@ -590,13 +589,13 @@ Proof.
   intros dc is_async c j b p G ND H I Abs NE.
   assert (C := missing_cascade value is_none sg p NE).
   destruct (spec_required value p) eqn:Rq.
-  - exfalso. destruct (missing_value_no_body value is_none sg env dc NV veq is_async c p I Abs NE (or_introl Rq)) as [x [pn X]].
+  - exfalso. destruct (missing_value_no_body value is_none sg env dc NV is_async c p I Abs NE (or_introl Rq)) as [x [pn X]].
     rewrite H in X. discriminate.
   - split; [reflexivity|]. destruct (p_default p) as [d|] eqn:D.
     + intro K. eapply missing_reaches_body; try eassumption. now rewrite C.
     + destruct (sig_default value sg (p_name p)) as [d|] eqn:S.
       * exists d. split; [reflexivity|]. eapply missing_sig_default_reaches_body; try eassumption. now rewrite C.
-      * exfalso. destruct (missing_value_no_body value is_none sg env dc NV veq is_async c p I Abs NE (or_intror (conj D S))) as [x [pn X]].
+      * exfalso. destruct (missing_value_no_body value is_none sg env dc NV is_async c p I Abs NE (or_intror (conj D S))) as [x [pn X]].
         rewrite H in X. discriminate.
 Qed.
 
